@@ -5,10 +5,9 @@
 src=$1; name=$2
 export GOFLAGS=-mod=mod GOPROXY=off GOSUMDB=off GOTOOLCHAIN=local
 W=/tmp/seedv_$name; rm -rf $W; mkdir -p $W
-git -C /repo worktree prune
-git -C /repo worktree add -q --detach $W/repo HEAD || exit 3
+( flock 9; git -C /repo worktree prune; git -C /repo worktree add -q --detach $W/repo HEAD ) 9>/tmp/.qf_worktree.lock || exit 3
 cd $W/repo
-git apply $src/patch.diff || { echo "$name: PATCH-DOES-NOT-APPLY"; cd /; git -C /repo worktree remove --force $W/repo; rm -rf $W; exit 3; }
+git apply $src/patch.diff || { echo "$name: PATCH-DOES-NOT-APPLY"; cd /; ( flock 9; git -C /repo worktree remove --force $W/repo ) 9>/tmp/.qf_worktree.lock; rm -rf $W; exit 3; }
 build=ok; go build ./... > $W/build.log 2>&1 || build=FAIL
 suite=pass; go test -vet=off -count=1 ./... > $W/suite.log 2>&1 || suite=FAIL
 cp $src/demo_test.go ./zz_seed_demo_test.go
@@ -19,4 +18,4 @@ ran=$(grep -c '^ok\|^--- \|^FAIL' $W/demo_without.log)
 echo "$name: build=$build suite=$suite demo_with_change=$dwith demo_without_change=$dwo"
 if [ "$suite" != pass ]; then grep -E '^(--- FAIL|FAIL|ok)' $W/suite.log | head -5; fi
 mkdir -p /tmp/seedv_logs/$name; cp $W/*.log /tmp/seedv_logs/$name/
-cd /; git -C /repo worktree remove --force $W/repo; rm -rf $W
+cd /; ( flock 9; git -C /repo worktree remove --force $W/repo ) 9>/tmp/.qf_worktree.lock; rm -rf $W
